@@ -123,16 +123,12 @@ class C02(PropCheck):
         if d['section'] == 'wide-total' and d['impl'].startswith('err:'):
             if d['impl'].endswith('@inline.py:skip_first_whitespace') and 'flex' in d['meta'].get('features', ()):
                 return 'flex-item-resume-crash'
-            if (d['impl'] == 'err:TypeError@boxes.py:padding_height'
-                    and {'footnote', 'columns'} <= set(d['meta'].get('features', ()))):
-                return 'columns-footnote-report-typeerror'
         return None
 
     def finding_replays(self):
         return {**pm_stage2.finding_replays(),
                 'flex-item-resume-crash': flex_resume_crash, 'page-groups-indexerror': page_groups_crash,
-                'grid-named-span-hang': grid_named_span,
-                'columns-footnote-report-typeerror': columns_footnote_report_crash, **c02_total.FINDING_REPLAYS}
+                'grid-named-span-hang': grid_named_span, **c02_total.FINDING_REPLAYS}
 
     def judge(self, d):
         if d['section'] in c02_total.SECTIONS:
@@ -205,8 +201,10 @@ COLUMNS_FOOTNOTE_REPORT = (
 
 
 def columns_footnote_report_crash():
-    """The last footnote of a page reported from a multi-column container: _report_footnotes reads the margin height
-    of the emptied footnote area, whose height is 'auto' since repair 84e5b27 (TypeError)."""
+    """Regression probe (repaired by ca6bcce, was the finding columns-footnote-report-typeerror; the same class is
+    run in every check by the tot-fn-cols-* documents of the totality families): the last footnote of a page
+    reported from a multi-column container - _report_footnotes read the margin height of the emptied footnote area,
+    whose height is 'auto' since repair 84e5b27 (TypeError)."""
     return wide_trace.render_outcome(COLUMNS_FOOTNOTE_REPORT).startswith('err:TypeError')
 
 
